@@ -233,6 +233,110 @@ def run(prog, chk):
             chk.ok("R12.4", "%s" % what, "body runs on the value produced by Shell::clone (%s)" % mode, function=fn)
         else:
             chk.fail("R12.4", fn, "body-not-on-clone", "%s: the cloned shell does not flow into the executed body (%s)" % (what, mode))
+    current_shell_stage_rule(prog, chk)
+
+
+def current_shell_stage_rule(prog, chk):
+    """R12.5: in spawn_pipeline_processes a stage gets ShellForCommand::ParentShell (runs in the current shell,
+    un-isolated) only on the `pipeline_len == 1` edge or the `run_last_pipeline_cmd_in_current_shell` (lastpipe) edge"""
+    from rulelib import bool_edges, switches_on_field
+    from dataflow import const_value
+    chk.rule("R12.5", "a pipeline stage runs in the current shell (ParentShell) only for single-command pipelines or under the lastpipe "
+                      "option: with those two true-edges removed, the ParentShell construction is unreachable")
+    fn = "brush_core::interp::spawn_pipeline_processes"
+    b = prog.impl_body(fn)
+    if not chk.anchor("R12.5", fn, b):
+        return
+    c = cfg_of(b)
+    d = defs_of(b)
+    parents = [bl.idx for bl in b.blocks for s in bl.stmts if s.kind == 'a' and s.rv.kind == 'agg'
+               and s.rv.adt == "brush_core::commands::ShellForCommand" and s.rv.variant == "ParentShell" and bl.idx in c.reach]
+    owned = [bl.idx for bl in b.blocks for s in bl.stmts if s.kind == 'a' and s.rv.kind == 'agg'
+             and s.rv.adt == "brush_core::commands::ShellForCommand" and s.rv.variant == "OwnedShell" and bl.idx in c.reach]
+    if not parents or not owned:
+        chk.fail("R12.5", fn, "anchors", "ParentShell / OwnedShell constructions not found (%d, %d)" % (len(parents), len(owned)))
+        return
+    removed = set()   # edges (from, to)
+    # (1) pipeline_len == 1
+    for bl in b.blocks:
+        t = bl.term
+        if t.kind != "switch" or t.ty != "bool" or bl.idx not in c.reach:
+            continue
+        for o in origins(b, d, t.discr, transparent=set()):
+            if o.kind == 'op' and o.node.kind == 'bin' and o.node.op == "Eq" and const_value(b, d, o.node.ops[1]) == 1:
+                src = origins(b, d, o.node.ops[0], transparent=set())
+                if any(x.kind == 'call' and (x.node.best_callee() or x.node.callee or "").endswith("::len") for x in src):
+                    f, tr = bool_edges(t)
+                    removed.add((bl.idx, tr))
+    # (2) lastpipe option
+    for gb, gt in switches_on_field(b, "run_last_pipeline_cmd_in_current_shell"):
+        f, tr = bool_edges(gt)
+        removed.add((gb, tr))
+    if len(removed) < 2:
+        chk.fail("R12.5", fn, "guards-missing", "the `pipeline_len == 1` / lastpipe tests were not found (%d)" % len(removed))
+        return
+    # the decision is usually materialised in a bool local (`let run_in_current_shell = a || (b && c)`), then tested:
+    # in that case the *targets* are the blocks assigning `true` to that local
+    targets = list(parents)
+    for bl in b.blocks:
+        t = bl.term
+        if t.kind == "switch" and t.ty == "bool" and t.discr.place is not None and t.discr.place.is_local() and bl.idx in c.reach:
+            f, tr = bool_edges(t)
+            if f is None:
+                continue
+            p_true = all(p == tr or p in c.reachable_from(tr, avoid=[bl.idx]) for p in parents)
+            p_false = any(p == f or p in c.reachable_from(f, avoid=[bl.idx]) for p in parents)
+            o_false = all(o == f or o in c.reachable_from(f, avoid=[bl.idx]) for o in owned)
+            if p_true and not p_false and o_false:
+                loc = t.discr.place.local
+                # follow copies back to the named local
+                tb = []
+                seen_l = set()
+                work = [loc]
+                while work:
+                    l = work.pop()
+                    if l in seen_l:
+                        continue
+                    seen_l.add(l)
+                    for kind, dbb, idx, node in d.of(l):
+                        # every definition that can make the flag true: `= true`, a computed value, a call result
+                        if kind == 'assign' and node.rv.kind == 'use':
+                            o = node.rv.ops[0]
+                            if o.const is not None:
+                                if o.const.value != 0:
+                                    tb.append(dbb)
+                            elif o.place is not None and o.place.is_local():
+                                work.append(o.place.local)
+                            else:
+                                tb.append(dbb)
+                        else:
+                            tb.append(dbb)
+                if tb:
+                    targets = tb
+    parents = targets
+    # reachability of the targets without the sanctioned edges
+    seen = {0}
+    stack = [0]
+    prev = {}
+    while stack:
+        x = stack.pop()
+        for sx in c.succ[x]:
+            if (x, sx) in removed or sx in seen:
+                continue
+            seen.add(sx)
+            prev[sx] = x
+            stack.append(sx)
+    bad = [p for p in parents if p in seen]
+    if bad:
+        path = [bad[0]]
+        while path[-1] in prev and len(path) < 40:
+            path.append(prev[path[-1]])
+        lines = sorted({b.blocks[x].term.line for x in path if b.blocks[x].term.kind == "switch"})
+        chk.fail("R12.5", fn, "current-shell-stage-without-lastpipe",
+                 "a pipeline stage can be given the *current* shell (ParentShell) without `pipeline_len == 1` or the lastpipe option (branches at lines %s): "
+                 "its assignments, cd, options and descriptors leak into the enclosing shell" % lines, detail={"path_blocks": list(reversed(path))})
+    else:
+        chk.ok("R12.5", "current-shell-only-single-or-lastpipe", "ParentShell is unreachable once the two sanctioned true-edges are removed (%d guards)" % len(removed), function=fn)
 
 
 def _behind_not_subshell(b, bb):
